@@ -15,6 +15,7 @@ fn main() {
         "c13-types" => extra::c13_types(&rest),
         "c01-fronts" => extra::c01_fronts(&rest),
         "c02-types" => extra::c02_types(&rest),
+        "c03-fs" => extra::c03_fs(&rest),
         "c10-get" => extra::c10_get(&rest),
         "c14-extra" => extra::c14_extra(&rest),
         "c15-life" => stress::c15(&rest),
